@@ -55,7 +55,10 @@ def ad_case(draw, tier, shard=0, nshards=1, zero_chol=False):
     o = draw(gens.real((2, norb, norb)))
     off = np.zeros((norb, norb))
     off[0, norb - 1] = off[norb - 1, 0] = 0.3  # keeps the observable from commuting with h1 when the draw shrinks to zero
-    o = (o + o.transpose(0, 2, 1)) / 2 + off
+    # the reverse-mode rdm1 is the gradient with respect to every matrix element separately, so the estimator must be differentiable along
+    # non-symmetric directions too: a third of the observables are left non-symmetric
+    p_sym = draw(st.integers(0, 2)) != 0
+    o = ((o + o.transpose(0, 2, 1)) / 2 if p_sym else o) + off
     if c["wt"] == "rhf" or draw(st.booleans()):
         o = np.stack([o[0], o[0]])
     p.update({"entry": c["entry"], "n_prop_steps": c["steps"], "n_ene_blocks": c["ene"], "n_sr_blocks": c["sr"], "obs": o, "perturb": draw(st.sampled_from([0.05, 0.15]))})
@@ -101,7 +104,8 @@ def fd_body(ctx, case):
     f = sl.entry_point(case["entry"], smp, P, hd)
     tag = f"{case['entry']}:{case['walker_type']}"
     nontriv = bool(np.any(np.asarray(case["chol"]))) and not _commutes(np.asarray(case["obs"])[0], P.h1)
-    ctx.case(case, nontrivial=nontriv, classes=["fd:" + tag, f"blocks={case['n_sr_blocks']}x{case['n_ene_blocks']}x{case['n_prop_steps']}"] + (["fd:small-homo-lumo-gap"] if case.get("small_gap") else []))
+    osym = bool(np.allclose(np.asarray(case["obs"]), np.asarray(case["obs"]).transpose(0, 2, 1)))
+    ctx.case(case, nontrivial=nontriv, classes=["fd:" + tag, f"blocks={case['n_sr_blocks']}x{case['n_ene_blocks']}x{case['n_prop_steps']}", "observable:" + ("symmetric" if osym else "non-symmetric")] + (["fd:small-homo-lumo-gap"] if case.get("small_gap") else []))
     try:
         e0, de, _ = jvp(f, (0.0, obs, sl.copy_pd(pd)), (1.0, 0.0 * obs, sl.tangent_like(pd)), has_aux=True)
         e0, de = float(e0), float(de)
